@@ -101,6 +101,59 @@ TEMPLATES = [
         'E ::= BIT STRING (SIZE(2))\nF ::= NULL\nG ::= SEQUENCE (SIZE(0..2)) OF B')),
 ]
 
+# Generated family restricted to the documented C subset: every supported leaf variant in every
+# supported structural position (see corpus/gen.py for the idea).  id: g/<container>/<leaf>.
+C_LEAVES = [
+    ('bool', 'BOOLEAN', 'TRUE'), ('null', 'NULL', None), ('int-0-7', 'INTEGER (0..7)', '3'),
+    ('int-m5-300', 'INTEGER (-5..300)', '256'), ('int-0-255', 'INTEGER (0..255)', '128'),
+    ('int-0-256', 'INTEGER (0..256)', '256'), ('int-m128-127', 'INTEGER (-128..127)', '-128'),
+    ('int-m129-127', 'INTEGER (-129..127)', '-129'), ('int-0-65536', 'INTEGER (0..65536)', '65536'),
+    ('int-u32', 'INTEGER (0..4294967295)', '65536'), ('int-1-u64', 'INTEGER (1..18446744073709551615)', '1'),
+    ('enum', 'ENUMERATED { a, b, c }', 'b'), ('enum-neg', 'ENUMERATED { below(-1), nominal(0), above(2) }', 'below'),
+    ('enum-wide-neg', 'ENUMERATED { lo(-200), mid(3), hi(100) }', 'lo'),
+    ('enum-gaps', 'ENUMERATED { u(5), v(2), w(9), x(128), y(40000) }', 'x'),
+    ('bits-5', 'BIT STRING (SIZE(5))', None), ('bits-9', 'BIT STRING (SIZE(9))', None),
+    ('bits-64', 'BIT STRING (SIZE(64))', None),
+    ('octets-2', 'OCTET STRING (SIZE(2))', "'0102'H"), ('octets-1-3', 'OCTET STRING (SIZE(1..3))', "'AA'H"),
+    ('octets-3-7', 'OCTET STRING (SIZE(3..7))', None),
+    ('seq', 'SEQUENCE { p INTEGER (0..7), q BOOLEAN OPTIONAL }', None),
+    ('choice', 'CHOICE { p INTEGER (0..7), q NULL }', None),
+    ('seqof', 'SEQUENCE (SIZE(1..3)) OF INTEGER (0..7)', None),
+]
+C_CONTAINERS = [
+    ('member', 'A ::= SEQUENCE { x %(t)s, z BOOLEAN }'),
+    ('optional', 'A ::= SEQUENCE { x %(t)s OPTIONAL, z BOOLEAN }'),
+    ('default', 'A ::= SEQUENCE { x %(t)s DEFAULT %(d)s, z BOOLEAN }'),
+    ('choice', 'A ::= CHOICE { z BOOLEAN, x %(t)s }'),
+    ('seqof', 'A ::= SEQUENCE { l SEQUENCE (SIZE(0..2)) OF %(t)s, z BOOLEAN }'),
+    ('ref', 'A ::= SEQUENCE { x R, y R OPTIONAL }\nR ::= %(t)s'),
+    ('addition', 'A ::= SEQUENCE { z BOOLEAN, ..., x %(t)s, w BOOLEAN OPTIONAL }'),     # OER generator only
+]
+C_QUICK = {('default', 'enum-neg'), ('optional', 'int-m129-127'), ('member', 'bits-9'), ('seqof', 'octets-1-3'),
+           ('choice', 'enum-wide-neg'), ('ref', 'octets-3-7'), ('member', 'int-1-u64'), ('seqof', 'enum-gaps'),
+           ('addition', 'octets-1-3'), ('addition', 'enum-wide-neg'), ('member', 'bits-64'), ('optional', 'seqof')}
+
+
+def generated_templates(codec):
+    out = []
+    for cid, ctext in C_CONTAINERS:
+        if cid == 'addition' and codec != 'oer':
+            continue
+        for lid, ltext, dflt in C_LEAVES:
+            if cid == 'default' and dflt is None:
+                continue
+            if cid == 'seqof' and lid == 'seqof':
+                continue
+            if cid == 'addition' and lid.startswith('bits'):
+                continue      # BIT STRING additions are outside the OER generator's subset
+            out.append(dict(id='g/%s/%s' % (cid, lid), quick=(cid, lid) in C_QUICK, nbytes_cap=4,
+                            text=M(ctext % dict(t=ltext, d=dflt))))
+    return out
+
+
+HAND = TEMPLATES
+TEMPLATES = HAND + generated_templates('uper')
+
 # Outside the documented subset: the generator has to raise asn1tools.Error.  If it accepts a
 # template the generated code is checked like any other (E/D/S/F) -- "reject, not mis-translate".
 REJECT = [
@@ -681,10 +734,7 @@ def main(argv=None, prop=PROP, modname='checks.C09', codec=CODEC, jobs_fn=None, 
     a = runner.std_args(argv)
     replay_fn = replay_fn or replay
     if a.replay:
-        v = json.load(open(a.replay))
-        ok, detail = replay_fn(v)
-        print(('VIOLATION property=%s replay=%s\n  ' % (prop, a.replay) if ok else 'not reproduced: ') + detail)
-        return 1 if ok else 0
+        return runner.cli_replay(prop, modname, replay_fn, a.replay)
     jobs = (jobs_fn or jobs_for)(a.tier)
     if a.only:
         jobs = [j for j in jobs if a.only in j['id']]
